@@ -160,13 +160,14 @@ func VerifC17_Bounds() {
 	zz.Reach("end")
 }
 
-// VerifC17_Monotone: for a base fee at or above the minimum gas price (the steady state), more gas never gives a lower base fee.
+// VerifC17_Monotone: more gas never gives a lower base fee.
 func VerifC17_Monotone() {
 	e := c17Setup()
 	zz.Assume(c17TargetPositive(e))
 	zz.Assume(!e.params.NoBaseFee)
 	zz.Assume(e.height > e.params.EnableHeight)
-	zz.Assume(e.params.BaseFee.GTE(e.params.MinGasPrice.TruncateInt()))
+	// a parent base fee below the minimum gas price arises when governance raises the minimum above the current base fee
+	below := e.params.BaseFee.LT(e.params.MinGasPrice.TruncateInt())
 	g1 := zz.AnyUint64("gas1")
 	g2 := zz.AnyUint64("gas2")
 	zz.Assume(g1 <= g2)
@@ -177,7 +178,11 @@ func VerifC17_Monotone() {
 	zz.Assert(f1 != nil && f2 != nil, "base fees computed")
 	zz.ObserveBig("f1", f1)
 	zz.ObserveBig("f2", f2)
-	zz.Assert(f1.Cmp(f2) <= 0, "base fee is monotone in the gas figure")
+	shape := ""
+	if below {
+		shape = " [shape C17-F2 parent base fee below the minimum gas price: the floor is applied in the lowering branch only]"
+	}
+	zz.Assert(f1.Cmp(f2) <= 0, "base fee is monotone in the gas figure"+shape)
 	zz.Reach("end")
 }
 
